@@ -1,6 +1,7 @@
 package rules
 
 import (
+	"regexp"
 	"go/token"
 	"strings"
 
@@ -10,6 +11,8 @@ import (
 )
 
 func init() { Register("C15", c15) }
+
+var modeAssignRe = regexp.MustCompile(`(?i)\b\w*mode\s*:?=\s*(Never|Monitor|Always)\b`)
 
 func c15(x *Ctx) {
 	c := x.C
@@ -229,10 +232,9 @@ func c15(x *Ctx) {
 			for i, cl := range ts[0].Clauses {
 				body := nodeString(x, ts[0].Bodies[i])
 				for _, l := range cl {
-					for _, m := range []string{"Never", "Monitor", "Always"} {
-						if strings.Contains(body, ".mode = "+m) {
-							got[l] = m
-						}
+					// `s.mode = Never`, or a local that is stored into the field afterwards (`mode = Never`)
+					if m := modeAssignRe.FindStringSubmatch(body); m != nil {
+						got[l] = m[1]
 					}
 				}
 			}
